@@ -259,6 +259,25 @@ func genC14(c *Ctx) {
 			}
 		}
 	}
+	// ---- op tdec: the BaseURL directory selects the pattern (model: extractPattern + the traffic branch of the handler)
+	for _, tr := range []string{"u20d10,d10u20", "u3,d3,u2d1,d1u2,u5,d5,u1d1,d2u1,u4,d4,d3u3,u2,d7u2", "d5", "u1d1,d1u1,u2d2"} {
+		np := strings.Count(tr, ",") + 1
+		var dirs []string
+		for j := 0; j < np+2; j++ {
+			dirs = append(dirs, fmt.Sprintf("bu%d", j))
+		}
+		dirs = append(dirs, "bu-1", "bu-2", "bu-17", "bu+1", "bu+0", "bu00", "bu007", "bu012", "bux", "bu", "bu1x", "bu1.0", "bu99", "bu9223372036854775807", "bu9223372036854775808",
+			"bu-9223372036854775808", "bv1", "b", "BU1")
+		for _, d := range dirs {
+			for i := 0; i < c.N(3, 12); i++ {
+				line := fmt.Sprintf("tdec %s %s %d", tr, d, 100000+r.Intn(40)*1000+r.Pick(0, 300, 999))
+				out := c.Emit(line, true)
+				if strings.HasPrefix(out, "PANIC") {
+					c.Violate("traffic-panic", "segment request through directory "+d+" with traffic patterns panics", []string{line}, nil)
+				}
+			}
+		}
+	}
 	// BaseURL elements and out-of-range BaseURL index
 	// (more than ten patterns: BaseURL indices with two digits)
 	for _, tr := range []string{"u10", "u20d3u12", "u5,d5", "u1,d2,s3", "u3,d3,u2d1,d1u2,u5,d5,u1d1,d2u1,u4,d4,d3u3,u2,d7u2",
@@ -308,5 +327,24 @@ func genC14(c *Ctx) {
 				}
 			}
 		}
+	}
+}
+
+
+func init() {
+	opExec["tdec"] = func(a []string) string {
+		if len(a) != 3 {
+			return "bad-op"
+		}
+		nowMS, err := strconv.Atoi(a[2])
+		if err != nil || nowMS < 3000 {
+			return "bad-op"
+		}
+		k := (nowMS - 2999) / 2000
+		rr := doLive("GET", fmt.Sprintf("/livesim2/traffic_%s/testpic_2s/%s/V300/%d.m4s?nowMS=%d", a[0], a[1], k, nowMS))
+		if rr.panicked != "" {
+			return "PANIC " + rr.panicked
+		}
+		return strconv.Itoa(rr.code)
 	}
 }
